@@ -317,8 +317,10 @@ def find_stage_for_replay(P, path):
     return P["stages"][0]
 
 
-def write_evidence(pid, P, tier, seed, results, wall, violations, known_lines, extra_notes):
-    os.makedirs(EVIDENCE, exist_ok=True)
+def write_evidence(pid, P, tier, seed, results, wall, violations, known_lines, extra_notes, partial=False):
+    # a partial run (--only <subcheck>) is a debugging aid: it must not replace the property's evidence file
+    edir = EVIDENCE if not partial else os.path.join(BUILD, "evidence-partial")
+    os.makedirs(edir, exist_ok=True)
     evaluations = sum(r.evaluations for r in results)
     hashes = set()
     for r in results:
@@ -363,11 +365,11 @@ def write_evidence(pid, P, tier, seed, results, wall, violations, known_lines, e
         "known_findings_reported": known_lines,
         "notes": notes[:40],
     }
-    tmp = os.path.join(EVIDENCE, "%s.json.tmp%d" % (pid, os.getpid()))
+    tmp = os.path.join(edir, "%s.json.tmp%d" % (pid, os.getpid()))
     with open(tmp, "w") as f:
         json.dump(ev, f, indent=1)
         f.write("\n")
-    os.rename(tmp, os.path.join(EVIDENCE, "%s.json" % pid))
+    os.rename(tmp, os.path.join(edir, "%s.json" % pid))
     return ev
 
 
@@ -461,7 +463,7 @@ def run_check(pid, tier, only=None):
         notes.append("unconfirmed failures (not reproducible from the saved case): " + "; ".join(unconfirmed))
     if regress_n:
         notes.append("regression tier: %d saved cases from corpus/%s re-executed" % (regress_n, pid.lower()))
-    ev = write_evidence(pid, P, tier, seed, results, wall, violations, known_lines, notes + infra)
+    ev = write_evidence(pid, P, tier, seed, results, wall, violations, known_lines, notes + infra, partial=bool(only))
     for name, need in P.get("min_per_check_%s" % tier, {}).items():
         got = ev["coverage"]["per_check_evaluations"].get(name, 0)
         if got < need and not only:
